@@ -21,7 +21,25 @@ VERIF = os.path.dirname(os.path.dirname(os.path.abspath(__file__)))
 
 
 # =========================================================================== C17
-def c17(rep, W, rule="C17"):
+def c17(rep, W, rule="C17", sections=None):
+    """sections: None = everything; or a set of rule suffixes ({".LIST", ".ARGS"}) for properties that rely on part of the wiring."""
+    if sections is not None:
+        class _Filter:
+            def __init__(self, rep_):
+                self._r = rep_
+            def ob(self, rl, *a, **k):
+                if any(rl.endswith(x) or rl.endswith(x + ".FLOOR") for x in sections):
+                    return self._r.ob(rl, *a, **k)
+                return True
+            def fail(self, rl, key, detail, where=None, sample=None):
+                return self.ob(rl, key, False, detail, where, sample)
+            def floor(self, rl, what, found, minimum, where=None):
+                if any(rl.endswith(x) for x in sections):
+                    return self._r.floor(rl, what, found, minimum, where)
+                return True
+            def __getattr__(self, n):
+                return getattr(self._r, n)
+        rep = _Filter(rep)
     mb = W.body(MAIN)
     fn = "main"
     pv = W.prov(mb)
@@ -248,6 +266,11 @@ def inmem_written(W, mth):
 
 
 def c13(rep, W, rule="C13"):
+    c13_reopen(rep, W, rule)
+    c13_agree(rep, W, rule)
+
+
+def c13_reopen(rep, W, rule="C13"):
     # ---- reopen clause
     sq = W.prog.adt("SqliteStorage")
     ftys = [(f["name"], f["ty"]) for f in sq["variants"][0]["fields"]] if sq else []
@@ -278,7 +301,11 @@ def c13(rep, W, rule="C13"):
     fsbad = W.bodies_calling(lambda c: c.get("def", "").startswith("std::fs::") and c.get("def", "").split("::")[-1] not in ("create_dir_all", "create_dir", "metadata", "read_dir", "exists"))
     fsbad = [(b.deff, t["callee"]["def"]) for b, bb, t in fsbad if b.unit.startswith(WD.SQLITE)]
     rep.ob(rule + ".IDEMPOTENT", ("sqlite", "no-destructive-fs-calls"), not fsbad, "file-system calls other than create_dir_all in the sqlite crate: %s" % (fsbad or "none"))
+
+
+def c13_agree(rep, W, rule="C13"):
     # ---- agreement clause
+    ss, un, uc, inst = S.sql_world(W)
     S.s_class(rep, W)
     for mth, want in CONTRACT.items():
         a = sqlite_written(W, mth)
